@@ -323,11 +323,55 @@ def gen_cluster(rng):
     return {"kind": "cluster", "ops": ops}
 
 
+def gen_rendezvous(rng):
+    """Atomicity of juror.verdict. Two coordinators a and b whose views (same members, the other side's nodes
+    not Healthy) force juries that share exactly one juror s; two pledges join concurrently, one through each, so
+    both propose the same key; the requests to s carry decision V: the harness holds each of them inside s's
+    Candidates() call - between the juror's 'already approved' lookup and its append - until a second proposal is at
+    the same point (or 40 ms pass). The model's verdict is atomic and the LTS theorems cover every interleaving of
+    ATOMIC verdicts; this scenario samples exactly that assumption on the real juror. Views are inside the
+    intersection guard (equal active sets), so any duplicate here is a violation, never the known finding."""
+    n = rng.choice([3, 3, 5])
+    members = list(range(1, n + 1))
+    rng.shuffle(members)
+    s_, a, b = members[0], members[1], members[2]
+    rest = members[3:]
+    side_a = {s_, a} | set(rest[:1])
+    side_b = {s_, b} | set(rest[1:2])
+    bad = lambda: rng.choice([ST_S, ST_D, ST_D])   # noqa: E731
+    def view(healthy):
+        return [[k, ST_H if k in healthy else bad(), k] for k in sorted(members)]
+    views = {k: view(set(members)) for k in members}
+    views[a], views[b] = view(side_a), view(side_b)
+    ms = [{"addr": k, "ck": 7, "max": rng.choice([3, 4, 10]), "view": views[k]} for k in sorted(members)]
+    rounds = lambda: [{"def": "D", "by": {str(s_): "V"}} for _ in range(rng.choice([1, 2, 2, 3]))]  # noqa: E731
+    pls = [{"p": 101, "max": 3, "attempts": [{"via": a, "how": "D", "rounds": rounds()}]},
+           {"p": 102, "max": 3, "attempts": [{"via": b, "how": "D", "rounds": rounds()}]}]
+    ops = []
+    if rng.random() < 0.3:      # an earlier join shifts the keys (and leaves an approval in some memories)
+        ops.append({"op": "par", "pledges": [{"p": 100, "max": 3, "attempts": [
+            {"via": rng.choice([a, b, s_]), "how": "D", "rounds": []}]}]})
+    ops.append({"op": "par", "pledges": pls})
+    if rng.random() < 0.3:
+        ops.append({"op": "probe", "m": s_, "key": n + 1})
+    return {"members": ms, "ops": ops, "rt_us": 2000, "rv_ms": 40, "rendezvous": True}
+
+
 CLUSTER_SHARE = 0.06
+RENDEZVOUS_SHARE = 0.025
 
 
 def gen_cases(rng, tier, n):
-    return [gen_cluster(rng) if rng.random() < CLUSTER_SHARE else gen_guarded(rng) for _ in range(n)]
+    out = []
+    for _ in range(n):
+        x = rng.random()
+        if x < CLUSTER_SHARE:
+            out.append(gen_cluster(rng))
+        elif x < CLUSTER_SHARE + RENDEZVOUS_SHARE:
+            out.append(gen_rendezvous(rng))
+        else:
+            out.append(gen_guarded(rng))
+    return out
 
 
 # --------------------------------------------------------------------------- judging
@@ -381,6 +425,8 @@ def histogram(case, r):
             ks.append("cluster_op=%s%s" % (o["op"], "" if e[1] or o["op"] == "close" else "_skipped"))
         return ks
     ks = ["members=%d" % len(case["members"])]
+    if case.get("rendezvous"):
+        ks.append("rendezvous_inside_juror")
     npl = len(all_pledges(case))
     ks.append("pledges=%d" % npl)
     for o in case["ops"]:
@@ -566,7 +612,7 @@ def extra(ctx):
             break
         check.report_case_violation(ctx, cases[i], res.get(i),
                                     "monitor ok_%s rejects the implementation's behaviour (stale-view batch)" % PID)
-    if M:
+    if M and not any(v["kind"] == "V1" for v in ctx.violations):
         i = M[0]
         try:
             md = model_dump(cases[i], res.get(i))
@@ -595,7 +641,10 @@ RULE = ("main batch: clusters of 1-7 arbitrating members with per-member candida
         "delivered, >=1 pledge handed a key; distinct by hash. About 6% of the main batch are cluster.Open-level "
         "scripts over real clusters with memkv stores (start | join i via m | close | reopen-from-store, incl. ops "
         "that do not apply): every opened cluster reports its node key and cluster key; non-trivial there = a node "
-        "joined through a reopened or a joined member.")
+        "joined through a reopened or a joined member. About 2.5% are rendezvous scripts (two concurrent pledges "
+        "through two coordinators whose forced juries share one juror; both proposals are held INSIDE that juror's "
+        "Candidates() call until they meet or 40 ms pass): they sample the atomicity of juror.verdict, which the "
+        "model assumes and on which every LTS theorem rests.")
 TRUSTED = ["cluster-level scripts: the harness only lets a node join while every existing node is open (a join that "
            "cannot reach a quorum makes cluster.Open panic on its nil result and leaves the coordinator's juror with "
            "thousands of remembered keys; both are outside the property and reported separately)",
@@ -603,7 +652,9 @@ TRUSTED = ["cluster-level scripts: the harness only lets a node join while every
            "harness transport wrapper: decides delivery of each juror request, linearises deliveries, view changes and "
            "Candidates() calls under one mutex, attributes Candidates() calls to runs by goroutine id",
            "pledge.Pledge / pledge.Arbitrate / responsible / juror and the freighter mock network run for real"]
-ASSUMES = ["node keys stay below 2^12 (Go uint16/Uint12 wrap-around of highest+1 not modelled)",
+ASSUMES = ["juror.verdict is atomic (one model step): lookup, range check and append cannot interleave with another "
+           "verdict of the same juror; sampled on the real juror by the rendezvous scripts, not proved",
+           "node keys stay below 2^12 (Go uint16/Uint12 wrap-around of highest+1 not modelled)",
            "within one view, addresses are distinct (one entry per physical node)",
            "juror memory is never reset: node restarts (a new juror with empty approvals on an old address) are "
            "outside the modelled events",
